@@ -86,7 +86,7 @@ class Graph:
 
 # Event fields that are *results* of a call; everything else identifies the call.
 RESULT_FIELDS = {"out", "ret", "usedkey", "method", "err", "val", "res", "path", "errpath", "log", "extra",
-                 "typed", "acceptable", "rop", "rout", "rret", "repl", "tree", "keys", "leak", "nonplain", "sv", "notpt", "vlog", "ns", "paths", "options", "dests", "atomic"}
+                 "typed", "acceptable", "rop", "rout", "rret", "repl", "tree", "keys", "leak", "nonplain", "sv", "notpt", "vlog", "ns", "paths", "options", "dests", "atomic", "asdict", "computed", "cteq"}
 
 
 def case_key(ev):
